@@ -271,7 +271,7 @@ impl<'a> BootInformation<'a> {
     pub fn elf_sections(&self) -> Option<ElfSectionIter> {
         let tag = self.get_tag::<ElfSectionsTag>();
         tag.map(|t| {
-            assert!((t.entry_size() * t.shndx()) <= t.header().size);
+            assert!((t.entry_size() as u64 * t.shndx() as u64) <= t.header().size as u64);
             t.sections()
         })
     }
